@@ -1387,6 +1387,7 @@ func runC13(r *Run) {
 		"For every block-style mapping node matching a table row: foreign key (synthetic name, a key valid in another section, a name with a space; scalar/null/mapping/sequence value) at every position; every key repeated behind the original (same spelling; other letter cases: a repetition in case-insensitive name mappings, a foreign key in fixed sections); every mandatory key deleted. " +
 		"Family names: a template with every user-named mapping (dispatch/call inputs, call secrets and outputs, env at workflow/job/step/container/service level, jobs, job outputs, matrix rows, row values, include/exclude items, services, step and job with, job secrets) rendered with generated names of class ascii / mixed / nonascii (Latin-1, Greek, Cyrillic letters with one-to-one case pairs, pair table written in the monitor); each name repeated as upper, lower, capitalised, only non-ASCII letters flipped, only ASCII letters flipped, one letter flipped, all flipped, random mixture. " +
 		"Families forms-*: in every mapping of every template a foreign key and a repetition written with an anchor, an explicit tag, both, single / double quotes, as explicit `? key`, as an alias of a scalar anchored elsewhere (and of the anchored original key), as merge key `<<: *a`, and with an alias as value; tag before anchor, local tag, verbatim tag and the non-specific tag `!`; every form also as the last key of the mappings that end the file, with the file rewritten without final line break (LF and CRLF); template K adds one-line flow mappings in every section group, keys that already carry properties, and alias-valued siblings. " +
+		"Family jobkind: 1, 2 and 3 keys of the other job kind (runs-on, environment, outputs, env, defaults, steps, timeout-minutes, continue-on-error, container in a job with `uses:`; with, secrets in a job without) in every order, before / behind `uses:` resp. `steps:`, in a clean and a dirty base. " +
 		"Each mutant is re-parsed with yaml.v3 and compared with the intended tree before it is judged. Non-trivial = distinct (base, mapping path, mutation, key, position, value kind)."
 	r.Assume("yaml.v3 line/column of a key is the position at which actionlint has to report it (C07 checks positions independently)")
 	r.Assume("a diagnostic is identified by (line, column, kind, message with embedded line:N,col:M references blanked); base diagnostics below the mutated line are expected shifted by the number of inserted lines")
@@ -1396,6 +1397,7 @@ func runC13(r *Run) {
 	r.Assume("generated names never contain letters with special case folding (ß, ÿ, µ, İ/ı, ſ, Kelvin/Ångström signs, final sigma, accented Greek, titlecase digraphs): the statement does not say how those compare")
 	r.Assume("a letter-case variant of a key of a fixed (case-sensitive) section must be reported as an unknown key and must not be reported as a repetition")
 	r.Assume("a key written with an anchor, a tag or `? ` has to be reported inside the key token behind those properties; a key written as an alias only has to receive some diagnostic located at the alias; `<<` is a key outside every fixed key set")
+	r.Assume("job kinds: services, strategy, concurrency, permissions, needs, if and name are accepted in both kinds of job (as the unchanged tree does); a key of the other kind is a key outside the set and has to be reported at that key, however many there are")
 	r.Assume("additional new diagnostics besides the demanded one are counted, not judged (the statement does not forbid them)")
 
 	pool := c13ForeignPool()
@@ -1403,6 +1405,8 @@ func runC13(r *Run) {
 
 	var fams []*Family
 	fams = append(fams, &Family{Name: "templates", N: len(c13Templates), Do: func(c *Case) { c13CheckTemplate(c, &c13Templates[c.Idx]) }})
+	jkCases := c13JKCases()
+	fams = append(fams, &Family{Name: "jobkind", N: len(jkCases), Do: func(c *Case) { c13JobKindCase(c, jkCases[c.Idx], level) }})
 	fams = append(fams, &Family{Name: "names", N: r.Q(36, 600), Do: func(c *Case) { c13NamesCase(c, level) }})
 	for ti := range c13Templates {
 		t := &c13Templates[ti]
@@ -1519,6 +1523,7 @@ func runC13(r *Run) {
 	}
 	c13NamesFloors(r)
 	c13FormsFloors(r)
+	c13JobKindFloors(r)
 
 	// coverage floors
 	if n := r.SetLen("selfcheck_failures"); n > 0 {
